@@ -2615,6 +2615,14 @@ class Processor:
                                     str(yaml_path),
                                     except_segment
                                 ) from wrap_ex
+                        if newidx < -len(data):
+                            raise YAMLPathException(
+                                ("Cannot add an element before the start of"
+                                 + " the Array at index {} in YAML Path")
+                                .format(newidx),
+                                str(yaml_path),
+                                except_segment
+                            )
                         for _ in range(len(data) - 1, newidx):
                             next_node = Nodes.build_next_node(
                                 yaml_path, depth + 1, value
